@@ -9,7 +9,7 @@ pub const RULE: &str = "cases: histories over one owned value of RiRefBuf / RiBu
 pub const MANDATORY: &[&str] = &[
     "buffer:RiRefBuf", "buffer:RiBuf", "buffer:PathBuf", "route:parsed", "route:default", "route:from_scheme", "route:cloned", "route:converted-from-full",
     "route:converted-from-reference", "op:set_scheme", "op:set_authority", "op:set_path", "op:set_query", "op:set_fragment", "op:set_userinfo", "op:set_host",
-    "op:set_port", "op:push", "op:pop", "op:clear", "op:symbolic_push", "op:symbolic_append", "op:normalize", "op:resolve", "history-len:1", "history-len:2",
+    "op:set_port", "op:push", "op:pop", "op:clear", "op:symbolic_push", "op:symbolic_append", "op:normalize", "op:resolve", "history-len:1", "history-len:2", "handle:shared-by-run",
 ];
 
 const OPS: &[&str] = &[
@@ -90,7 +90,7 @@ pub fn generate(ctx: &mut Ctx) {
             }
         }
     }
-    let n = ctx.random_budget(480, 40_000, 2_500_000);
+    let n = ctx.random_budget(480, 120_000, 2_500_000);
     for i in 0..n {
         let mut rng = ctx.rng("hist", i);
         let mut o = gen::Opts::new(rng.chance(1, 2));
